@@ -209,6 +209,7 @@ struct Gen {
     ka_frames: u64,
     reg2_frames: u64,
     live_ticks: u64,
+    link_samples: Vec<u64>,
 }
 
 fn ka10(ts: u64) -> Vec<u8> {
@@ -228,7 +229,10 @@ impl Gen {
         let waiting = self.sim.conns[i].rtt.waiting_for_keepalive_response;
         self.sim.packet(i, bytes, now).await;
         let c = &self.sim.conns[i];
-        if c.rtt.last_rtt_measurement_ms != before { self.samples += 1; run.count("echo:sample_taken"); }
+        if c.rtt.last_rtt_measurement_ms != before {
+            self.samples += 1; self.link_samples[i] += 1; run.count("echo:sample_taken");
+            if c.rtt.kalman_rtt.value() < 0.0 { run.count("kalman:negative_overshoot_after_sample"); }
+        }
         else if waiting && bytes.len() >= 2 && bytes[0] == 0x90 && bytes[1] == 0 { self.rejected += 1; run.count("echo:rejected_while_waiting"); }
         else if bytes.len() >= 2 && bytes[0] == 0x90 && bytes[1] == 0 { run.count("echo:no_probe_outstanding"); }
         self.ops.push(format!("OPkt {} (BH {}) {}", i, hexbytes(bytes), now));
@@ -344,7 +348,8 @@ fn pick_ids(n: usize, r: &mut Rng) -> Vec<u64> {
 }
 
 /// style: 0 steady (on-schedule ticks, echoing receivers), 1 mixed, 2 hostile (fuzz + resets),
-/// 3 silent receivers (timeouts, reconnect back-off), 4 tiny clock (t0 small: now <= 10 s)
+/// 3 silent receivers (timeouts, reconnect back-off), 4 tiny clock (t0 small: now <= 10 s),
+/// 5 RTT drop (a link's round trip collapses after one or two samples: Kalman overshoot)
 async fn gen_case(r: &mut Rng, run: &mut Run, style: u64, nticks: usize) -> std::io::Result<()> {
     let n = *r.pick(&[1usize, 1, 1, 2, 2, 2, 2, 3, 3, 4]);
     let ids = pick_ids(n, r);
@@ -355,17 +360,24 @@ async fn gen_case(r: &mut Rng, run: &mut Run, style: u64, nticks: usize) -> std:
     };
     let sim = Sim::new(&ids, t0).await?;
     let mut g = Gen { sim, now: t0, ops: vec![], obs: vec![], planned: vec![], recent: vec![],
-        samples: 0, rejected: 0, ka_frames: 0, reg2_frames: 0, live_ticks: 0 };
+        samples: 0, rejected: 0, ka_frames: 0, reg2_frames: 0, live_ticks: 0, link_samples: vec![0; n] };
     let classic = r.chance(1, 3);
     let mut echo_p = vec![];
     let mut rereg_p = vec![];
     let mut rtt_ms = vec![];
     for _ in 0..n {
-        echo_p.push(match style { 0 => 100, 3 => *r.pick(&[0u64, 0, 30]), _ => *r.pick(&[0u64, 30, 80, 100, 100]) });
+        echo_p.push(match style { 0 | 5 => 100, 3 => *r.pick(&[0u64, 0, 30]), _ => *r.pick(&[0u64, 30, 80, 100, 100]) });
         rereg_p.push(match style { 3 => *r.pick(&[0u64, 50, 100]), _ => *r.pick(&[50u64, 100, 100]) });
         rtt_ms.push(*r.pick(&[1u64, 5, 20, 45, 80, 150, 400, 950, 1000, 2500, 9990, 10050]));
     }
     if style == 0 { for x in rtt_ms.iter_mut() { *x = (*x).min(400); } }
+    let mut drop_after = vec![];
+    let mut drop_to = vec![];
+    for i in 0..n {
+        drop_after.push(1 + r.below(2));
+        drop_to.push(*r.pick(&[1u64, 2, 5, 20]));
+        if style == 5 { rtt_ms[i] = *r.pick(&[400u64, 950, 2500, 4000]); }
+    }
     // initial registration: REG3 from the receiver on most links
     for i in 0..n {
         if style == 3 && r.chance(1, 3) { continue; }
@@ -374,11 +386,12 @@ async fn gen_case(r: &mut Rng, run: &mut Run, style: u64, nticks: usize) -> std:
     let mut last_tick = g.now;
     for _ in 0..nticks {
         let delta = match style {
-            0 => 1000,
+            0 | 5 => 1000,
             3 => if r.chance(1, 2) { 1000 } else { *r.pick(&TICK_OFF) },
             _ => if r.chance(3, 4) { *r.pick(&TICK_ON) } else { *r.pick(&TICK_OFF) },
         };
         let tick_at = last_tick + delta;
+        if style == 5 { for i in 0..n { if g.link_samples[i] >= drop_after[i] { rtt_ms[i] = drop_to[i]; } } }
         // deliver what is due before the tick, in time order, plus random extras
         g.planned.sort_by_key(|e| e.0);
         while let Some(pos) = g.planned.iter().position(|e| e.0 <= tick_at) {
@@ -386,7 +399,7 @@ async fn gen_case(r: &mut Rng, run: &mut Run, style: u64, nticks: usize) -> std:
             g.pkt(i, &bytes, at, run).await;
             if r.chance(1, 12) { g.pkt(i, &bytes, at, run).await; run.count("echo:duplicate"); } // duplicate delivery
         }
-        let extras = match style { 0 => 0, 2 => r.below(4), _ => r.below(2) };
+        let extras = match style { 0 | 5 => 0, 2 => r.below(4), _ => r.below(2) };
         for _ in 0..extras {
             let i = r.below(n as u64) as usize;
             match r.below(10) {
@@ -413,12 +426,16 @@ async fn gen_case(r: &mut Rng, run: &mut Run, style: u64, nticks: usize) -> std:
     run.count_n("ticks:link_live", g.live_ticks);
     let text = format!("CA {} {} [{}] [{}]", crate::common::zlist(ids.iter().map(|&x| x as i128)), t0,
         g.ops.join(";"), g.obs.join(";"));
-    let kind: &'static str = match style { 0 => "steady", 1 => "mixed", 2 => "hostile", 3 => "silent", _ => "tinyclock" };
+    let kind: &'static str = match style { 0 => "steady", 1 => "mixed", 2 => "hostile", 3 => "silent", 4 => "tinyclock", _ => "rttdrop" };
     run.push(kind, g.samples > 0 && g.ka_frames > 0, text);
     // let aborted reader tasks finish
     drop(g);
     tokio::task::yield_now().await;
     Ok(())
+}
+
+fn nt(r: &mut Rng) -> usize {
+    match r.below(10) { 0 => 3 + r.below(5) as usize, 1..=7 => 8 + r.below(10) as usize, _ => 18 + r.below(14) as usize }
 }
 
 pub fn run(seed: u64, tier: &str, out: &Path, extra: &[(String, String)]) -> std::io::Result<()> {
@@ -428,13 +445,13 @@ pub fn run(seed: u64, tier: &str, out: &Path, extra: &[(String, String)]) -> std
     let mut rng = Rng::new(seed ^ 0xC14C_14C1_4C14);
     let mut scale: f64 = 1.0;
     for (k, v) in extra { if k == "scale" { scale = v.parse().unwrap_or(1.0); } }
-    let ncases = ((if run.thorough() { 1100.0 } else { 110.0 }) * scale) as usize;
+    let ncases = ((if run.thorough() { 900.0 } else { 100.0 }) * scale) as usize;
     let rt = tokio::runtime::Builder::new_current_thread().enable_all().build()?;
     let res: std::io::Result<()> = rt.block_on(async {
         for i in 0..ncases {
             let mut r = rng.fork(i as u64);
-            let style = match r.below(20) { 0..=3 => 0, 4..=9 => 1, 10..=14 => 2, 15..=17 => 3, _ => 4 };
-            let nticks = match r.below(10) { 0 => 3 + r.below(5) as usize, 1..=7 => 8 + r.below(10) as usize, _ => 18 + r.below(14) as usize };
+            let style = match r.below(20) { 0..=2 => 0, 3..=7 => 1, 8..=12 => 2, 13..=15 => 3, 16..=17 => 4, _ => 5 };
+            let nticks = if style == 5 { 20 + r.below(10) as usize } else { nt(&mut r) };
             gen_case(&mut r, &mut run, style, nticks).await?;
         }
         Ok(())
